@@ -47,6 +47,8 @@ impl<'a> BasicParser<'a> {
             return self.peeked.take();
         }
         loop {
+            #[cfg(feature = "verif")]
+            crate::verif::tick(crate::verif::SITE_PARSE_NEXT);
             self.col.start = self.col.end;
             let token = self.token_stream.next()?;
             if matches!(token, Token::Word(Word::Rem1) | Token::Word(Word::Rem2)) {
@@ -74,6 +76,8 @@ impl<'a> BasicParser<'a> {
         let mut statements: Vec<Statement> = vec![];
         let mut expect_colon = false;
         loop {
+            #[cfg(feature = "verif")]
+            crate::verif::tick(crate::verif::SITE_PARSE_STATEMENTS);
             match self.peek() {
                 None | Some(Token::Word(Word::Else)) => return Ok(statements),
                 Some(Token::Colon) => {
@@ -113,6 +117,8 @@ impl<'a> BasicParser<'a> {
     ) -> Result<Vec<Expression>> {
         let mut expressions: Vec<Expression> = vec![];
         loop {
+            #[cfg(feature = "verif")]
+            crate::verif::tick(crate::verif::SITE_PARSE_LIST);
             expressions.push(self.expect_fn_expression(var_map)?);
             if self.maybe(Token::Comma) {
                 continue;
@@ -125,6 +131,8 @@ impl<'a> BasicParser<'a> {
         let mut expressions: Vec<Expression> = vec![];
         let mut linefeed = true;
         loop {
+            #[cfg(feature = "verif")]
+            crate::verif::tick(crate::verif::SITE_PARSE_LIST);
             match self.peek() {
                 None | Some(Token::Colon) | Some(Token::Word(Word::Else)) => {
                     let mut column = self.col.clone();
@@ -175,6 +183,8 @@ impl<'a> BasicParser<'a> {
         let mut idents: Vec<(Column, token::Ident)> = vec![];
         let mut expecting = false;
         loop {
+            #[cfg(feature = "verif")]
+            crate::verif::tick(crate::verif::SITE_PARSE_LIST);
             match self.peek() {
                 None | Some(Token::Colon) | Some(Token::Word(Word::Else)) if !expecting => break,
                 _ => idents.push(self.expect_ident()?),
@@ -216,6 +226,8 @@ impl<'a> BasicParser<'a> {
     fn expect_var_list(&mut self) -> Result<Vec<Variable>> {
         let mut vec_var: Vec<Variable> = vec![];
         loop {
+            #[cfg(feature = "verif")]
+            crate::verif::tick(crate::verif::SITE_PARSE_LIST);
             vec_var.push(self.expect_var()?);
             if self.maybe(Token::Comma) {
                 continue;
@@ -254,6 +266,8 @@ impl<'a> BasicParser<'a> {
         let mut vars: Vec<Expression> = vec![];
         let mut expecting = false;
         loop {
+            #[cfg(feature = "verif")]
+            crate::verif::tick(crate::verif::SITE_PARSE_LIST);
             match self.peek() {
                 None | Some(Token::Colon) | Some(Token::Word(Word::Else)) if !expecting => break,
                 _ => vars.push(self.expect_line_number()?),
@@ -368,6 +382,8 @@ impl Expression {
             var_map: &HashMap<token::Ident, Variable>,
             precedence: usize,
         ) -> Result<Expression> {
+            #[cfg(feature = "verif")]
+            crate::verif::tick(crate::verif::SITE_PARSE_EXPR);
             let mut lhs = match parse.next() {
                 Some(Token::LParen) => {
                     let expr = descend(parse, var_map, 0)?;
@@ -420,6 +436,8 @@ impl Expression {
             };
             let mut rhs;
             while let Some(Token::Operator(op)) = parse.peek() {
+                #[cfg(feature = "verif")]
+                crate::verif::tick(crate::verif::SITE_PARSE_EXPR);
                 let op_prec = Expression::binary_op_precedence(op)?;
                 if op_prec <= precedence {
                     break;
@@ -589,6 +607,8 @@ impl Statement {
             parse.peek(),
             None | Some(Token::Colon) | Some(Token::Word(Word::Else))
         ) {
+            #[cfg(feature = "verif")]
+            crate::verif::tick(crate::verif::SITE_PARSE_LIST);
             parse.next();
         }
         result
